@@ -247,7 +247,41 @@ fn txid_of(id: u32) -> Txid {
     Txid::from_slice(&h).unwrap()
 }
 
+/// Non-address output scripts of the other standard kinds (round 10).  `R/<n>` below 1000 is c08's raw script
+/// (`n` bytes, OP_RETURN first: 0 = the empty script, 1 = a bare OP_RETURN, 3 / 40 = OP_RETURN + small-number opcodes);
+/// the codes below name further scripts that no wallet path derives and no allowlist entry (address, xpub child) can
+/// name.  The Lean wallet model reads every `R/<n>` as `Script.other n` (not spendable, not allowlistable), the
+/// monitors' `dest_truth` classifies them ('f','n'): a signed sweep with such an output is `sweep-to-unknown-destination`.
+const R_P2PK: usize = 1001;          // <33-byte key> OP_CHECKSIG
+const R_MULTISIG: usize = 1002;      // bare 1-of-2: OP_1 <key> <key> OP_2 OP_CHECKMULTISIG
+const R_TRUE: usize = 1003;          // anyone-can-spend: OP_1
+const R_WITNESS_V2: usize = 1004;    // unknown witness version: OP_2 <32 bytes>
+const R_OPRET_PUSH: usize = 1005;    // OP_RETURN <push of 20 bytes> (a data carrier)
+const R_OPRET_P2WPKH: usize = 1006;  // OP_RETURN followed by the bytes of a wallet-looking p2wpkh program
+const R_SPECIAL: [usize; 6] = [R_P2PK, R_MULTISIG, R_TRUE, R_WITNESS_V2, R_OPRET_PUSH, R_OPRET_P2WPKH];
+
+fn special_script(n: usize) -> Option<ScriptBuf> {
+    let k1 = foreign_key(901).serialize();
+    let k2 = foreign_key(902).serialize();
+    let mut v: Vec<u8> = vec![];
+    match n {
+        R_P2PK => { v.push(0x21); v.extend_from_slice(&k1); v.push(0xac); }
+        R_MULTISIG => { v.push(0x51); v.push(0x21); v.extend_from_slice(&k1); v.push(0x21); v.extend_from_slice(&k2); v.push(0x52); v.push(0xae); }
+        R_TRUE => v.push(0x51),
+        R_WITNESS_V2 => { v.push(0x52); v.push(0x20); v.extend_from_slice(&k1[1..33]); }
+        R_OPRET_PUSH => { v.push(0x6a); v.push(0x14); v.extend_from_slice(&k1[1..21]); }
+        R_OPRET_P2WPKH => { v.push(0x6a); v.push(0x00); v.push(0x14); v.extend_from_slice(&k2[1..21]); }
+        _ => return None,
+    }
+    Some(ScriptBuf::from_bytes(v))
+}
+
 fn desc_script(node: &Node, d: &Desc) -> ScriptBuf {
+    if let Desc::R(n) = d {
+        if let Some(s) = special_script(*n) {
+            return s;
+        }
+    }
     allow_script(node, &d.to_string()).unwrap_or_else(ScriptBuf::new)
 }
 
@@ -614,10 +648,15 @@ fn gen_dests(rng: &mut Rng, cfg: &Cfg, removed: &[String], removed_x: &[u32]) ->
             // a destination that WAS allowlisted and has been removed since
             Desc::parse(rng.pick(removed).as_str()).unwrap()
         } else if bad {
-            match rng.below(4) {
+            match rng.below(7) {
                 0 => Desc::W(vec![(p[0] + 1) & !HARD], 'w'),
                 1 => Desc::W(p.clone(), 'k'),
                 2 => Desc::X(3, p.clone(), 'w'),
+                // scripts of the other standard kinds, with a value like every other output: OP_RETURN carriers, the
+                // empty script, p2pk, bare multisig, anyone-can-spend, an unknown witness version, foreign p2pkh / p2wsh
+                3 => Desc::R(*rng.pick(&[0usize, 1, 3, 40])),
+                4 => Desc::R(*rng.pick(&R_SPECIAL)),
+                5 => Desc::F(rng.below(5) as u32 + 10, *rng.pick(&['k', 'h'])),
                 _ => Desc::F(rng.below(5) as u32 + 10, *rng.pick(&['w', 's', 't'])),
             }
         } else {
@@ -962,6 +1001,10 @@ impl Group for C09Sweep {
                     Some(e) if e.cfg.to_string() == *cfg && e.ct == *ct => {
                         let l = self.exec_op(e, &t, i, &mut co);
                         co.tags.insert(format!("{}:{}", kind, l.split(' ').next().unwrap_or("")));
+                        if t.iter().any(|x| x.contains("R/")) {
+                            // an output with a script of one of the other standard kinds (OP_RETURN, empty, p2pk, bare multisig …)
+                            co.tags.insert(format!("{}:other-script:{}", kind, l.split(' ').next().unwrap_or("")));
+                        }
                         if l == "ok" { acc = true } else { rej = true }
                         if l == "panic" {
                             // a panic inside with_channel poisons the slot mutex: rebuild the environment (with the
